@@ -150,28 +150,80 @@ type poolSeg struct {
 	fresh bool
 }
 
+// Hop-field lifetimes are drawn per hop field (each AS chooses its own ExpTime),
+// also for peer entries. Besides wholly fresh and wholly expired segments there
+// are mixed ones, issued 1-2 h ago: some hop fields are expired (ExpTime <= 5:
+// <= 34 min) while others, possibly only an unused peer hop field, are still
+// valid (ExpTime >= 30: >= 2.9 h); the clock lies between the segment's minimum
+// and maximum hop expiry, every single expiry is >= 26 min away from it.
+const (
+	kindFresh = iota
+	kindExpired
+	kindMixed
+)
+
 func (s *poolSeg) first() addr.IA { return s.hops[0].ia }
 func (s *poolSeg) last() addr.IA  { return s.hops[len(s.hops)-1].ia }
 
-func build(r *vgen.Rand, now time.Time, typ seg.Type, hops []hop, fresh bool) *poolSeg {
+func build(r *vgen.Rand, now time.Time, typ seg.Type, hops []hop, kind int) *poolSeg {
 	hh := make([]hpseg.Hop, len(hops))
 	var ts time.Time
-	if fresh {
+	lo := func() uint8 { return uint8(r.Range(0, 5)) }
+	hi := func() uint8 { return uint8(r.Range(30, 63)) }
+	switch kind {
+	case kindFresh:
 		ts = now.Add(-time.Duration(r.Range(60, 1800)) * time.Second)
-	} else {
+	case kindExpired:
 		ts = now.Add(-time.Duration(r.Range(7200, 20000)) * time.Second)
+	default:
+		ts = now.Add(-time.Duration(r.Range(3600, 7200)) * time.Second)
 	}
 	for i, h := range hops {
-		hh[i] = hpseg.Hop{IA: h.ia, In: h.in, Eg: h.eg, Exp: uint8(r.Range(20, 63))}
-		if !fresh {
+		hh[i] = hpseg.Hop{IA: h.ia, In: h.in, Eg: h.eg}
+		switch kind {
+		case kindFresh:
+			hh[i].Exp = uint8(r.Range(20, 63))
+		case kindExpired:
 			hh[i].Exp = uint8(r.Range(0, 8)) // at most ~51 min, issued >= 2 h ago
+		default:
+			hh[i].Exp = vgen.Pick(r, lo(), hi())
 		}
+	}
+	peerExp := func() uint8 {
+		if kind == kindMixed {
+			return hi()
+		}
+		return hh[0].Exp
+	}
+	peerHop := -1
+	if kind == kindMixed {
+		switch r.Intn(3) {
+		case 0: // all regular hop fields expired, only an unused peer hop field is still valid
+			for i := range hh {
+				hh[i].Exp = lo()
+			}
+			peerHop = r.Range(1, len(hh)-1)
+		default: // at least one expired and one valid regular hop field
+			i := r.Intn(len(hh))
+			j := (i + 1 + r.Intn(len(hh)-1)) % len(hh)
+			hh[i].Exp, hh[j].Exp = lo(), hi()
+			if r.Chance(1, 3) {
+				peerHop = r.Range(1, len(hh)-1)
+			}
+		}
+	} else if r.Chance(1, 5) {
+		peerHop = r.Range(1, len(hh)-1)
+	}
+	if peerHop >= 0 {
+		// a peering link to an AS outside the topology: never usable by the combinator
+		hh[peerHop].Peers = []hpseg.Peer{{IA: ia("3-ff00:0:310"), Local: uint16(r.Range(40, 49)),
+			Remote: uint16(r.Range(1, 9)), Exp: peerExp()}}
 	}
 	ps, err := hpseg.Build(hh, ts, ts, uint16(r.Intn(65536)))
 	if err != nil {
 		panic(err)
 	}
-	return &poolSeg{typ: typ, hops: hops, ps: ps, fresh: fresh}
+	return &poolSeg{typ: typ, hops: hops, ps: ps, fresh: kind == kindFresh}
 }
 
 // ---------------------------------------------------------------- fakes
@@ -402,7 +454,11 @@ func genGet(r *vgen.Rand, mutated bool) *getCase {
 			n = 2
 		}
 		for i := 0; i < n; i++ {
-			c.pool = append(c.pool, build(r, c.now, typ, hops, !r.Chance(1, staleP)))
+			kind := kindFresh
+			if r.Chance(1, staleP) {
+				kind = vgen.Pick(r, kindExpired, kindMixed, kindMixed)
+			}
+			c.pool = append(c.pool, build(r, c.now, typ, hops, kind))
 		}
 	}
 	for _, x := range allAS {
@@ -482,7 +538,7 @@ func main() {
 	run.Prelude = "Import Pather."
 	run.Rule = "split: exhaustive grid (source core flag x 3 local ASes x inspector nil/failing/11 core sets (incl. same AS number in the other ISD) x 17 " +
 		"destinations) on the real MultiSegmentSplitter; get: real Pather.GetPaths over a 10-AS/2-ISD topology with " +
-		"random core sets, a pool of real up/down/core segments (fresh or expired, margins >= 30 s), real combinator, " +
+		"random core sets, a pool of real up/down/core segments (per-hop-field lifetimes: fresh, expired, or mixed with the clock between the minimum and maximum hop expiry incl. unused peer hop fields; margins >= 20 min), real combinator, " +
 		"real memrevcache with 0-4 active/expired revocations mostly on candidate-path interfaces, destinations " +
 		"(AS, ISD wildcard, local, ISD 0, unknown ISD), every 4th case mutated (wrong core flag, inspector view " +
 		"differs, more expired segments/revocations, missing next hops); non-trivial = split grid point with " +
